@@ -156,6 +156,25 @@ class Workload:
         self._run(side, op)
 
 
+def install_greeter(w, tape):
+    """Applications that talk from inside connectionMade(): a greeting
+    written there (and sometimes the close right behind it) belongs to the
+    subchannel like any other write."""
+    def greeter(p):
+        k = tape.choose(5, "greet")
+        if k < 2:
+            return
+        data = b"hello from %s %s" % (p.role.encode(), p.name.encode())
+        p.transport.write(data)
+        p.writes.append(data)
+        w.sim.note("probe.write_from_connectionMade")
+        if k == 4:
+            p.transport.loseConnection()
+            p.closed_local = True
+            w.sim.note("probe.close_from_connectionMade")
+    w.greeter = greeter
+
+
 class L2Faults:
     """cut / half-open / blackhole on peer-to-peer links."""
 
